@@ -191,6 +191,7 @@ type State struct {
 	env    map[ssa.Value]AV
 	events []Event
 	epoch  int
+	iter   int // bumped whenever a block is entered again on the path (unrolled loop iterations): fresh values get distinct names
 	splits int
 	depth  int
 	trail  []string
@@ -208,7 +209,7 @@ func newState() *State {
 func (s *State) clone() *State {
 	n := &State{terms: make(map[string]iset, len(s.terms)), atoms: make(map[string]bool, len(s.atoms)),
 		mem: make(map[string]AV, len(s.mem)), env: make(map[ssa.Value]AV, len(s.env)),
-		epoch: s.epoch, splits: s.splits, depth: s.depth, unsupported: s.unsupported}
+		epoch: s.epoch, iter: s.iter, splits: s.splits, depth: s.depth, unsupported: s.unsupported}
 	for k, v := range s.terms {
 		n.terms[k] = v
 	}
